@@ -34,6 +34,9 @@ type FmtCase struct {
 	Journal   *m.Journal `json:"journal,omitempty"`
 	Damage    *C07Case   `json:"damage,omitempty"` // journal with one damaged entry
 	Text      string     `json:"text,omitempty"`   // arbitrary text
+	// JunkBefore (with Damage): that many lines no journal has (rows of a pasted CSV export), each a
+	// syntax error of its own, stand in front of the journal
+	JunkBefore int `json:"junk_before,omitempty"`
 	Indent    int        `json:"indent"`
 	Align     bool       `json:"align"`
 	MinCol    int        `json:"mincol"`
@@ -74,6 +77,12 @@ func (c *FmtCase) rawText() (string, *m.Rendered) {
 		s0, e0 := r.EntryLine[c.Damage.Entry], r.EntryEnd[c.Damage.Entry]
 		dmg := applyDamage(r.Lines[s0:e0+1], c.Damage.Ops)
 		var ls []string
+		for i := 0; i < c.JunkBefore; i++ {
+			ls = append(ls, fmt.Sprintf("\"row %d\";\"CARD PAYMENT\";\"-12,00\";\"EUR\"", i+1))
+		}
+		if c.JunkBefore > 0 {
+			ls = append(ls, "")
+		}
 		ls = append(ls, r.Lines[:s0]...)
 		ls = append(ls, dmg...)
 		ls = append(ls, r.Lines[e0+1:]...)
@@ -500,6 +509,10 @@ func genFmtCase(t *rapid.T, p *gen.Profile) *FmtCase {
 		r := m.Render(j)
 		e := rapid.IntRange(0, len(j.Entries)-1).Draw(t, "entry")
 		c.Damage = &C07Case{Journal: j, Entry: e, Ops: genDamage(t, r.EntryEnd[e]-r.EntryLine[e]+1)}
+		if rapid.IntRange(0, 3).Draw(t, "junk") == 0 {
+			// however many errors come first, what is not understood stays as written
+			c.JunkBefore = rapid.SampledFrom([]int{1, 30, 99, 100, 101, 128, 256, 300}).Draw(t, "njunk")
+		}
 	default:
 		c.Journal = gen.GenJournal(t, p, pools, fmtJOpts)
 	}
@@ -528,6 +541,9 @@ func fmtClasses(c *FmtCase) []string {
 		}
 	case c.Damage != nil:
 		cls = append(cls, "input:damaged")
+		if c.JunkBefore >= 100 {
+			cls = append(cls, "input:hundred-or-more-errors-before")
+		}
 	default:
 		cls = append(cls, "input:soup")
 	}
